@@ -50,10 +50,18 @@ type c01Carrier struct {
 	peer    *snowflake_client.WebRTCPeer
 }
 
-func (c *c01Carrier) kill() {
+func (c *c01Carrier) kill() { c.killWith(false) }
+
+// killWith ends the carrier; abrupt: the server's reader gets a non-EOF error (torn TCP connection,
+// no WebSocket close frame) instead of a clean end of stream.
+func (c *c01Carrier) killWith(abrupt bool) {
 	c.once.Do(func() {
 		close(c.dead)
-		c.srv.CutEOF()
+		if abrupt {
+			c.srv.CutEOFAbrupt()
+		} else {
+			c.srv.CutEOF()
+		}
 	})
 }
 
@@ -78,8 +86,9 @@ func (e clientEnd) Write(b []byte) (int, error) {
 		c.kill()
 		return 0, errors.New("carrier is gone")
 	case fCutInside:
+		// a connection torn inside a message: the server has read part of it and then gets an error
 		c.srv.TryFeed(b[:len(b)/2], c.dead)
-		c.kill()
+		c.killWith(true)
 		return 0, errors.New("carrier is gone")
 	case fCutAfter:
 		c.srv.TryFeed(b, c.dead)
